@@ -9,11 +9,26 @@ THEOREMS = [
      "text": "retrying is entered only by the internal retry event from a completed status; the decision is taken only "
              "when the table accepts it (sweeps of the generated task table)"},
     {"name": "C13_retry_delay", "strength": "F", "text": "a re-offered retry carries the retry delay (0 if none)"},
-    {"name": "(tested, not proved) tally <= count over whole histories; no transition/publish for a retried attempt",
-     "strength": "T", "text": "monitor c13"},
+    {"name": "C13_retried_at_most_count_times / C13_retry_entries_bounded", "strength": "F",
+     "text": "for every evaluator and every history of API calls from a state in which the record's tally is 0 (e.g. the "
+             "empty history, C13_empty_history_start; new records start at 0, C13_new_record_tally_zero): the number of "
+             "calls at which one record enters `retrying` is at most max(count, 0) -- at most count+1 executions per visit. "
+             "No protocol hypothesis (only: the internal retry event is not injected from outside, which every provider "
+             "event satisfies, C13_provider_events_are_external)"},
+    {"name": "C13_tally_monotone / C13_entry_needs_tally_below_count / C13_no_policy_no_entries", "strength": "F",
+     "text": "the steps: the tally never decreases and count never changes; an entry into retrying needs tally < count "
+             "and increments the tally; a record without a policy never retries"},
+    {"name": "C13_retry_tally_bounded_step/_api/_history", "strength": "F",
+     "text": "under the protocol hypothesis that no event other than `running` is delivered to a retrying record, the "
+             "engine's own tally stays <= max(count,0); Example duplicate_report_overruns / tally_runs_ahead_entries_do_not "
+             "show the tally does run ahead without it (real engine behaviour; costs retries, never adds an execution)"},
+    {"name": "C13_update_task_state_never_out_of_fuel / C13_fuel_irrelevant / C13_fuel_two_suffices", "strength": "F",
+     "text": "the re-entrant update_task_state call terminates: over every composed graph (engine commands inert) the "
+             "model's recursion bound is never reached and extra fuel never changes a result"},
+    {"name": "(tested, not proved) no transition/publish fires for a retried attempt", "strength": "T", "text": "monitor c13"},
 ]
 TRUSTED_BASE = common.TRUSTED_BASE_COMMON
-ASSUMPTIONS = ["the bound over whole histories needs the two-level analysis of the re-entrant update_task_state call; not done"]
+ASSUMPTIONS = ["theorems are about the Gallina model; the tie to conducting.py is the lock-step comparison on generated histories"]
 FAM = progs.family(p_retry=0.6, p_cmd=0.25, n_tasks=(1, 5), p_fail=0.35, p_items=0.15, w_ctrl=0.4, steps=(12, 60))
 
 
